@@ -35,3 +35,15 @@ partial def findNode (n : Nat) : CST → Option CST
   | .many ks => ks.findSome? (findNode n)
 
 end XmlRs.P
+
+namespace XmlRs.P
+/-- `verify(tuple((stag, content, etag)), |(s, _, e)| s.name == *e)`: the first labelled node of the
+    start tag and of the end tag is the QName; QName equality is equality of the name text -/
+def tagNamesMatch (c : CST) : Bool :=
+  match c with
+  | .seq [.node _ s, _, .node _ e] =>
+      (match s.kidsL.head?, e.kidsL.head? with
+       | some (_, a), some (_, b) => a.flatten == b.flatten
+       | _, _ => false)
+  | _ => false
+end XmlRs.P
